@@ -14,11 +14,11 @@ EXPLAIN = {}    # property -> free text
 
 
 def ob(name, props, fn, tier='quick', pkg='llfree', features=(), kind='complete', bound=None, assumes=(),
-       timeout=600, jobs=16, claim=None):
+       timeout=600, jobs=16, claim=None, cover=True):
     module, harness = name.split('::')
     OBS.append(dict(name=name, module=module, harness=harness, props=list(props), fn=list(fn), tier=tier, pkg=pkg,
                     features=tuple(features), kind=kind, bound=bound, assumes=list(assumes), timeout=timeout,
-                    jobs=jobs, claim=claim))
+                    jobs=jobs, claim=claim, cover=cover))
 
 
 def for_property(prop, tier):
@@ -44,3 +44,78 @@ for o in range(7):
        claim='None <=> no aligned all-zero block; Some((v2,off)) => off lowest aligned free block and v2 == v | mask(off)')
 EXPLAIN['C23'] = ('first_zeros_aligned is loop-free; each order is one obligation over all 2^64 rows, so a discharged '
                   'obligation is a complete proof of the statement for that order.')
+
+# ------------------------------------------------------------------------------------------------
+# L0 tree word contracts (shared by C11, C13, C15, C09)
+# ------------------------------------------------------------------------------------------------
+L0_TREE = 'all 2^32 tree words with free <= TREE_FRAMES, all classes, n in 1..=TREE_FRAMES, every pure policy (memoised ghost policy)'
+ob('trees::l0_tree_with', ['C09'], ['trees::Tree::with'], bound=L0_TREE)
+ob('trees::l0_tree_steal', ['C13', 'C15', 'C09'], ['trees::Tree::steal'], bound=L0_TREE)
+ob('trees::l0_tree_reserve_or_steal', ['C13', 'C15', 'C09'], ['trees::Tree::reserve_or_steal'], bound=L0_TREE)
+ob('trees::l0_tree_put', ['C09', 'C04'], ['trees::Tree::put'], bound=L0_TREE)
+ob('trees::l0_tree_unreserve_add', ['C09', 'C04'], ['trees::Tree::unreserve_add'], bound=L0_TREE)
+ob('trees::l0_tree_sync_steal', ['C11'], ['trees::Tree::sync_steal'], bound=L0_TREE)
+ob('trees::l0_tree_change', ['C15'], ['trees::Tree::change'], bound=L0_TREE)
+
+L0_LOCAL = 'all 2^64 slot words (present => free <= TREE_FRAMES), all tree ids, all n'
+ob('local::l0_local_with_none', ['C09'], ['local::LocalTree::with', 'local::LocalTree::none'], bound=L0_LOCAL)
+ob('local::l0_local_get', ['C09', 'C04'], ['local::LocalTree::get'], bound=L0_LOCAL)
+ob('local::l0_local_put', ['C09', 'C04'], ['local::LocalTree::put'], bound=L0_LOCAL)
+ob('local::l0_local_set_start', ['C09'], ['local::LocalTree::set_start'], bound=L0_LOCAL)
+ob('util::l0_spin_wait', ['C21'], ['util::spin_wait'], bound='n <= RETRIES(4), any condition trace')
+
+# C16
+for n in range(1, 9):
+    ob(f'util::c16_sorted_add_n{n}', ['C16'], ['util::SortedBuffer::add'],
+       bound=f'capacity {n}, u8 keys, ANY buffer state satisfying the sorted-prefix invariant (inductive step => every insertion sequence)')
+ob('util::c16_sorted_iter_rev_descending', ['C16'], ['util::SortedBuffer::iter'], bound='capacity 4, any sorted-prefix buffer')
+
+# C19 (eval crate)
+ob('classes::c19_count_to_local', ['C19'], ['classes::Count::to_local', 'classes::Count::to_count'], pkg='llfree-eval',
+   bound='every Count kind; core, pid over all usize; cores >= 1 over all usize')
+for n in range(1, 5):
+    ob(f'classes::c19_request_n{n}', ['C19'], ['classes::ClassingConfig::request', 'classes::ClassConfig::matches', 'classes::GfpMatch::matches'],
+       pkg='llfree-eval', timeout=900,
+       bound=f'{n} classes with distinct ids < 8, every Count kind, any order window, GFP matcher of depth <= 2 over 4 flags, all order/core/cores>=1/pid/gfp values')
+
+# ------------------------------------------------------------------------------------------------
+# L1a: atomics, bitfield (sequential contracts) and the zeros lemmas
+# ------------------------------------------------------------------------------------------------
+SEQ = 'sequential (no interference)'
+for t in ('u16', 'u32', 'u64'):
+    ob(f'atomic::l1a_atom_try_update_{t}', ['C21', 'C02', 'C12'], ['atomic::Atom::try_update'], bound=f'all {t} values, any closure result; unwinding bound = one retry, unwinding assertion on')
+for t in ('u32', 'u64'):
+    ob(f'atomic::l1a_atom_update_{t}', ['C21', 'C02'], ['atomic::Atom::update'], bound=f'all {t} values; unwinding bound = one retry')
+ob('atomic::l1a_atom_cas_swap', ['C02', 'C12'], ['atomic::Atom::compare_exchange', 'atomic::Atom::swap', 'atomic::Atom::fetch_or', 'atomic::Atom::fetch_and'], bound='all u64 triples')
+for n in (1, 2, 4, 8):
+    ob(f'atomic::l1a_cas_all_n{n}', ['C01', 'C02', 'C12'], ['atomic::AtomicSlice::compare_exchange_all'], bound=f'slice of {n} entries, all u16 contents, ' + SEQ)
+BF = 'all 2^512 bitfield states, every aligned position, ' + SEQ
+for o in range(10):
+    ob(f'bitfield::l1a_toggle_o{o}', ['C01', 'C02'], ['bitfield::Bitfield::toggle'] + (['bitfield::Bitfield::toggle_int'] if 3 <= o <= 6 else []), bound=BF + f', order {o}, both directions')
+    ob(f'bitfield::l1a_set_first_zeros_o{o}', ['C01', 'C12'], ['bitfield::Bitfield::set_first_zeros', 'bitfield::first_zeros_aligned'] + (['bitfield::Bitfield::set_first_zero_rows'] if o > 6 else []),
+       bound=BF + f', order {o}, every start row, universally quantified witness block', timeout=900)
+    ob(f'bitfield::l1a_zeros_lemmas_o{o}', ['C02', 'C04', 'C05'], ['(lemma) popcount facts Z1-Z3 used as ghost facts by lower contracts'], bound=BF + f', order {o}', timeout=900, cover=False)
+for o in (0, 3, 6, 7, 9):
+    ob(f'bitfield::l1a_is_zero_o{o}', ['C04', 'C10'], ['bitfield::Bitfield::is_zero'], bound=BF + f', order {o}', cover=False)
+ob('bitfield::l1a_set_range', ['C06'], ['bitfield::Bitfield::set'], bound='all bitfield states, every range inside the bitfield', cover=False)
+ob('bitfield::l1a_fill_count_zeros', ['C05', 'C06'], ['bitfield::Bitfield::fill', 'bitfield::Bitfield::count_zeros'], bound='all bitfield states', cover=False)
+ob('lower::l0_huge_entry', ['C02', 'C09'], ['lower::HugeEntry::new_huge', 'lower::HugeEntry::new_with', 'lower::HugeEntry::dec', 'lower::HugeEntry::inc', 'lower::HugeEntry::huge', 'lower::HugeEntry::free'],
+   bound='all well-formed u16 entries, n in 1..=512', cover=False)
+ob('lower::l0_lower_metadata', ['C18'], ['lower::Metadata::new', 'lower::Lower::metadata_size', 'util::size_of_slice'], bound='frames <= 2^44', cover=False)
+
+# ------------------------------------------------------------------------------------------------
+# L1b: Lower::put / get_at / get, one obligation per (order, huge index); default geometry, one tree
+# ------------------------------------------------------------------------------------------------
+LOWER_ASSUMES = ['bitfield::Bitfield::toggle (l1a_toggle_o*)', 'bitfield::Bitfield::set_first_zeros (l1a_set_first_zeros_o*)',
+                 'atomic::Atom::try_update / update sequential contract (l1a_atom_*)', 'ghost zeros lemmas Z1-Z3 (l1a_zeros_lemmas_o*)']
+LB = 'config-bounded: 1 tree of 4 huge frames (2048 frames, all 2^2048 bit states x all well-formed entries under wf_lower), block anywhere in huge frame %d, order %d'
+for fn, pre, props in (('put', 'l1b_put', ['C02', 'C01', 'C03']), ('get_at', 'l1b_get_at', ['C02', 'C01', 'C10']), ('get', 'l1b_get', ['C12', 'C02', 'C01'])):
+    for o in range(12):
+        hs = [h for h in range(4) if o < 9 or h % (1 << (o - 9)) == 0]
+        quick_h = 1 if 1 in hs else hs[-1]
+        for h in hs:
+            fns = {'put': ['lower::Lower::put', 'lower::Lower::put_small', 'lower::Lower::partial_put_huge'],
+                   'get_at': ['lower::Lower::get', 'lower::Lower::get_at'], 'get': ['lower::Lower::get']}[fn]
+            quick_orders = {'put': (0, 5, 8, 9, 10), 'get_at': (0, 6, 7, 9, 11), 'get': (0, 3, 8, 9, 10, 11)}[fn]
+            ob(f'lower::{pre}_o{o}_h{h}', props, fns, tier='quick' if (h == quick_h and o in quick_orders) else 'thorough', kind='config-bounded',
+               bound=LB % (h, o), assumes=LOWER_ASSUMES, timeout=900, cover=(h == quick_h and o in (0, 9)))
